@@ -46,4 +46,8 @@ class U3GateToRotation(DecompositionRule[GateOperation]):
 def decompose_orquestra_circuit(
     circuit: Circuit, decomposition_rules: Sequence[DecompositionRule[GateOperation]]
 ):
-    return Circuit(decompose_operations(circuit.operations, decomposition_rules))
+    # keep the register width: idle trailing qubits belong to the circuit
+    return Circuit(
+        decompose_operations(circuit.operations, decomposition_rules),
+        n_qubits=circuit.n_qubits,
+    )
